@@ -37,7 +37,8 @@ def main(argv):
     try:
         sh(["git", "-C", "/repo", "worktree", "add", "-q", "--detach", wt, "HEAD"])
         meta["repo_head"] = sh(["git", "-C", "/repo", "rev-parse", "--short", "HEAD"])[1].strip()
-        shutil.copy(demo, os.path.join(wt, "demo.py"))
+        src_text = open(demo).read().replace("/tmp/wt_%s" % pid, wt)      # some demos assert where ciw was imported from
+        open(os.path.join(wt, "demo.py"), "w").write(src_text)
         rc0, o0, e0 = sh(["/venv/bin/python", "demo.py"], cwd=wt, timeout=600)
         meta["ran"].append("clean tree: python demo.py -> exit %d" % rc0)
         rc, o, e = sh(["git", "-C", wt, "apply", patch])
